@@ -101,6 +101,34 @@ theorem pruned_resources_stay (src : Src) (f n : Nat) (before : List PageM) (p :
     obtain ⟨hh, ent, h3, h4, h5⟩ := ok.only k name pl ks hg
     exact ⟨hh, ent, h3, h4, mapped_mono _ _ h2.2.map_ext _ _ h5⟩
 
+/-- **C20, closure, seen from the page**: every reference held by the resources of a successfully imported
+    page and by its page-level entries is the number of an object created in the new document. -/
+theorem page_refs_closed (src : Src) (f n : Nat) (before : List PageM) (p : PageM) (out : PageOut)
+    (hok : (clonePage f src p (after f src n before)).1 = .ok out) :
+    (∀ k name pl ks, resGet out.res k name = some (pl, ks) → ∀ r ∈ ks,
+        ∃ ob ∈ (clonePage f src p (after f src n before)).2.objs, ob.id = r) ∧
+    (∀ r ∈ out.rest, ∃ ob ∈ (clonePage f src p (after f src n before)).2.objs, ob.id = r) := by
+  have h1 := clonePage_spec src f p _ (reachable_inv src f n before)
+  have ok := h1.2.2 out hok
+  constructor
+  · intro k name pl ks hg r hr
+    obtain ⟨_, ent, _, _, hm⟩ := ok.only k name pl ks hg
+    obtain ⟨e, _, hl⟩ := mapped_mem _ _ _ hm r hr
+    exact h1.1.map_obj _ _ hl
+  · intro r hr
+    obtain ⟨e, _, hl⟩ := mapped_mem _ _ _ ok.rest r hr
+    exact h1.1.map_obj _ _ hl
+
+/-- **Self-contained, the other direction**: the objects the importer creates get numbers the new document
+    did not use before (`n` objects existed), so nothing that was there is overwritten. -/
+theorem copies_get_fresh_numbers (src : Src) (f n : Nat) (pages : List PageM) :
+    ∀ ob ∈ (after f src n pages).objs, n ≤ ob.id := by
+  intro ob hob
+  have h := (clonePages_spec src f pages _ (Inv.init src n)).2
+  rcases h.new_ids ob hob with hb | hb
+  · simp [St.init] at hb
+  · exact hb
+
 /-- **C20, "importing never panics"**: no input makes the model of the (repaired) importer panic. -/
 theorem import_never_panics (src : Src) (f : Nat) (p : PageM) (st : St) : (clonePage f src p st).1 ≠ .panic :=
   clonePage_ne_panic src f p st
